@@ -705,6 +705,7 @@ pub fn oracle(ctx: &mut Ctx) {
         let out = run_case(&case.input, &case.opts);
         judge(&prop, &case, &out, &mut st);
     }
+    let bin_dir: Option<std::path::PathBuf> = if crate::cli::binary_available() { Some(crate::cli::work_dir("e2e-bin")) } else { None };
     for i in 0..ctx.n {
         let mut case = gen_case(&mut rng, profile, ctx.tier_thorough, if ctx.tier_thorough { 33 } else { 17 });
         if prop == "C15" && rng.chance(2, 3) && case.img.depth != 16 {
@@ -740,6 +741,15 @@ pub fn oracle(ctx: &mut Ctx) {
             ));
         }
         judge(&prop, &case, &out, &mut st);
+        // one case in ten also through the executable (the same option values asked for on the command line, result on
+        // standard output): the property is the user's, whichever door the file comes in by
+        if bin_dir.is_some() && rng.chance(1, 10) {
+            if let Some(out_cli) = crate::cli::run_case_via_binary(bin_dir.as_ref().unwrap(), &case.input, &case.opts) {
+                st.count("cases_through_the_executable");
+                let c2 = Case { img: case.img.clone(), class: format!("{} [through the executable, --stdout]", case.class), enc: case.enc.clone(), input: case.input.clone(), opts: case.opts.clone() };
+                judge(&prop, &c2, &out_cli, &mut st);
+            } else { st.count("cases_not_expressible_on_the_command_line"); }
+        }
         // chains: feed the output back in with fresh options
         if matches!(prop.as_str(), "C01" | "C04" | "C03") && rng.chance(1, 4) {
             if let Outcome::Ok(b1) = &out {
